@@ -7,6 +7,7 @@
 mod conc;
 mod env;
 mod loader;
+mod pair;
 mod policy;
 mod seq;
 mod seqgen;
@@ -44,6 +45,7 @@ pub const ENGINE_SEQ: &str = "E1-cache";
 pub const ENGINE_LOADER: &str = "E4-loader";
 pub const ENGINE_ALOADER: &str = "E2-async-loader";
 pub const ENGINE_CONC: &str = "E4-threads";
+pub const ENGINE_PAIR: &str = "E4p-pair";
 
 fn run_replay(r: &Replay) -> Option<Failure> {
   match r.engine.as_str() {
@@ -52,6 +54,7 @@ fn run_replay(r: &Replay) -> Option<Failure> {
     ENGINE_LOADER => loader::execute_threads(&vcore::from_value::<loader::TScenario>(&r.scenario)).err(),
     ENGINE_ALOADER => loader::execute_async(&vcore::from_value::<loader::AScenario>(&r.scenario)).err(),
     ENGINE_CONC => conc::execute(&vcore::from_value::<conc::Scenario>(&r.scenario)).err(),
+    ENGINE_PAIR => pair::execute(&vcore::from_value::<pair::Scenario>(&r.scenario)).err(),
     other => {
       eprintln!("unknown engine {other}");
       std::process::exit(2)
@@ -69,7 +72,8 @@ fn main() {
       let r = vcore::read_replay(&args[2]);
       let _ = GLOBAL_PROPERTY.set(r.property.clone());
       // E4 replays are statistical: repeat (see NOTES.md)
-      let reps = if r.engine == ENGINE_CONC || r.engine == ENGINE_LOADER { 200 } else { 1 };
+      // E4p replays force their interleaving with the pause plan: mostly deterministic, repeated a few times
+      let reps = if r.engine == ENGINE_CONC || r.engine == ENGINE_LOADER { 200 } else if r.engine == ENGINE_PAIR { 10 } else { 1 };
       for _ in 0..reps {
         if let Some(f) = run_replay(&r) {
           if f.property == r.property {
@@ -130,24 +134,34 @@ fn main() {
         }
         "C11" | "C12" | "C13" | "C16" | "C17" => {
           // development aid (never set by vf): VERIF_ONLY_ENGINE=conc skips the sequential engine
-          if std::env::var("VERIF_ONLY_ENGINE").map_or(true, |e| e != "conc") {
+          if std::env::var("VERIF_ONLY_ENGINE").map_or(true, |e| e != "conc" && e != "pair") {
             seq::check(&mut check);
           }
           engines.push("E1 sequential cache histories on sync+async handles against a reference model, H3 virtual clock (proptest)");
-          if matches!(prop.as_str(), "C11" | "C13" | "C16") {
+          let only = std::env::var("VERIF_ONLY_ENGINE").ok();
+          if matches!(prop.as_str(), "C11" | "C13" | "C16") && only.as_deref().map_or(true, |e| e != "pair") {
             conc::check(&mut check);
             engines.push("E4 real threads, generated programs, quiescent-state and per-thread-order oracles");
           }
+          if matches!(prop.as_str(), "C11" | "C12" | "C13" | "C16") && only.as_deref().map_or(true, |e| e != "conc") {
+            pair::check(&mut check);
+            engines.push("E4p two threads with generated pause points (key Hash/Eq/Clone evaluations, user closures, loader body), outcome compared with sequential reference executions");
+            assumptions.extend(pair::assumptions());
+          }
           assumptions.extend(seq::assumptions());
-          rule = seq::rule_for(&prop);
+          rule = format!("{} || {}", seq::rule_for(&prop), pair::rule());
         }
         "C15" => {
-          seq::check(&mut check);
-          loader::check(&mut check);
-          engines.push("E1 sequential histories (loads per miss), E4 gate-controlled loader waves on threads, E2 async waves on a harness TaskSpawner/executor");
+          if std::env::var("VERIF_ONLY_ENGINE").map_or(true, |e| e != "pair") {
+            seq::check(&mut check);
+            loader::check(&mut check);
+          }
+          pair::check(&mut check);
+          engines.push("E1 sequential histories (loads per miss), E4 gate-controlled loader waves on threads, E2 async waves on a harness TaskSpawner/executor, E4p two threads with generated pause points against sequential reference executions");
           assumptions.extend(seq::assumptions());
           assumptions.extend(loader::assumptions());
-          rule = loader::rule();
+          assumptions.extend(pair::assumptions());
+          rule = format!("{} || {}", loader::rule(), pair::rule());
         }
         _ => {
           eprintln!("property {prop} is not served by this binary");
